@@ -9,6 +9,7 @@ relationship constant or a CODATA-rounded au_* value enters in the 2018 set, 2e-
 printed to 8 digits: measured worst deviation from h, c, k 1.1e-8; 2018: 4.8e-10)."""
 import itertools
 import math
+import os
 from fractions import Fraction
 
 from .. import coqrun
@@ -37,7 +38,9 @@ TRUSTED = [
     "pint (parser, alias/prefix resolution, UnitsContainer, Context graph search, plain conversion) is external code: modelled in "
     "coq/Model/Units.v and (wave 2) coq/Model/UnitsText.v, not verified. The text stream hands the model the SAME strings as the implementation "
     "(tokenizer, precedence, juxtaposition, symbol/alias/prefix resolution modelled for the subset of names of Gen.ident_table: ureg.py's own "
-    "names/aliases and the whitelisted plain units); the other streams still hand over resolved (prefix, unit) trees. Outside the modelled "
+    "names/aliases and the whitelisted plain units); the other streams still hand over resolved (prefix, unit) trees — PROVED about the model (wave 4, C03_text_roundtrip): on the fully parenthesised "
+    "text render() writes for such a tree (canonical names, non-negative integer numerals) the model's reader returns exactly that tree, so for the "
+    "model handing over the tree or its text is the same; that pint reads the text as that tree stays trusted/corr. Outside the modelled "
     "texts: names pint knows but the table does not (such texts are filtered out by asking pint's get_name), a number or parenthesis "
     "juxtaposed to a parenthesis (pint reads '3 (m)**2' as 9 m**2), offset units",
     "trusted external data read from the installed pint at translate time: exact SI factor and dimension of a whitelist of plain SI/imperial "
@@ -736,6 +739,70 @@ def history_calls(order):
 
 
 # ------------------------------------------------------------------------------------------------
+# cross-context stream (wave 4): contexts of BOTH years alive in one process, the same request put to the other year's object first.
+# A history is a list of ops executed after `import qcelemental`: ["new", year] builds object #len(objs); ["call", k, a, b] asks
+# object #k.  The answer of the LAST op is judged by the independent SI oracle of that object's year; only requests whose 2014 and
+# 2018 factors differ by more than 4x the oracle tolerance are used, so an answer served from the other year's constants (a cache or
+# registry shared between contexts) cannot pass.
+
+def run_cross_ops(ops):
+    objs, out = [], None
+    for op in ops:
+        if op[0] == "new":
+            objs.append(fresh_context(op[1]))
+        else:
+            out = impl_call(objs[op[1]], op[2], op[3])
+    return out
+
+
+def run_cross_subprocess(ops):
+    """run_cross_ops in a fresh interpreter (same PYTHONPATH, i.e. the same implementation tree); -> the answer of every call op"""
+    import json
+    import subprocess
+    import sys
+    code = ("import sys, json; from harness.props import c03; ops = json.load(sys.stdin); objs = []; outs = []\n"
+            "for op in ops:\n"
+            "    if op[0] == 'new': objs.append(c03.fresh_context(op[1]))\n"
+            "    else: outs.append(c03.impl_call(objs[op[1]], op[2], op[3]))\n"
+            "json.dump(outs, sys.stdout)\n")
+    r = subprocess.run([sys.executable, "-c", code], input=json.dumps(ops), capture_output=True, text=True, cwd=coqrun.VERIF, timeout=300)
+    if r.returncode != 0:
+        raise RuntimeError("cross-context worker: " + r.stderr[-400:])
+    return [tuple(o) for o in json.loads(r.stdout)]
+
+
+def cross_year_sensitive(si, a, b):
+    """the factor a->b differs between the two sets by more than 4x the looser oracle tolerance"""
+    try:
+        e14, e18 = si[2014].expected(a, b), si[2018].expected(a, b)
+    except KeyError:
+        return False
+    if e14[0] != "value" or e18[0] != "value" or e14[1] == 0:
+        return False
+    return abs(e14[1] - e18[1]) > 4 * max(e14[2], e18[2]) * abs(e14[1])
+
+
+def probe_replay(ctx, stream, case):
+    """does this case fail when replayed in a FRESH process? (about 2 s)"""
+    import json
+    import subprocess
+    import sys
+    tmp = os.path.join(coqrun.BUILD, f"c03-probe-{os.getpid()}.json")
+    with open(tmp, "w") as fh:
+        json.dump({"stream": stream, "case": case}, fh, default=str)
+    try:
+        rc = subprocess.run([sys.executable, "-c", "import sys; from harness.core import main; sys.exit(main())", ctx.pid, "--replay", tmp],
+                            cwd=coqrun.VERIF, stdout=subprocess.DEVNULL, stderr=subprocess.DEVNULL, timeout=120).returncode
+    except Exception:
+        rc = None
+    try:
+        os.remove(tmp)
+    except OSError:
+        pass
+    return rc == 1
+
+
+# ------------------------------------------------------------------------------------------------
 # glue stream (wave 3): the entry points themselves — conversion_factor with str / pint Quantity / pint Unit arguments and its
 # functools.lru_cache, on fresh context objects, on the long-lived ones and on the module-level singleton qcelemental.constants;
 # Datum.to_units (which goes through the singleton).  A HISTORY is a list of calls on ONE object; every answer is judged by the
@@ -1127,6 +1194,58 @@ def correspond(ctx):
                 if o1 is not None and not same_answer(o0, o1):
                     corr.failures.append({"stream": "oracle:history", "case": {"year": year, "a": k[0], "b": k[1], "order_dependent": True},
                                           "what": f"{k[0]!r} -> {k[1]!r} gives {o0} or {o1} depending on which colliding spelling was asked first", "observed": [o0, o1], "details": {}})
+    # cross-context stream: see run_cross_ops
+    sens = []
+    for (stream_, year_, a_, b_) in cases:
+        if year_ == 2014 and not stream_.startswith(("unrelated", "compound")) and (2014, render(a_), render(b_)) not in flagged \
+                and (2018, render(a_), render(b_)) not in flagged and not prefixed_nist_sources(a_) and cross_year_sensitive(si, a_, b_):
+            sens.append((a_, b_))
+    ctx.rng.shuffle(sens)
+    sens = sens[:120 if ctx.thorough else 40]
+    cross_ops, cross_meta = [], []
+    for rnd, build in enumerate(([2018, 2014], [2014, 2018])):
+        base = len([o for o in cross_ops if o[0] == "new"])
+        idx = {}
+        for y in build:
+            idx[y] = base + build.index(y)
+            cross_ops.append(["new", y])
+        for i, (a_, b_) in enumerate(sens[rnd::2]):
+            sa, sb = render(a_), render(b_)
+            order = (2018, 2014) if i % 2 == 0 else (2014, 2018)
+            for y in order:
+                cross_ops.append(["call", idx[y], sa, sb])
+                cross_meta.append((len(cross_ops), y, a_, b_, order))
+    try:
+        # executed in a process of its own, so that the history is exactly `import qcelemental` + these ops
+        cross_outs = run_cross_subprocess(cross_ops)
+        first = True
+        for (upto, y, a_, b_, order), out in zip(cross_meta, cross_outs):
+            sa, sb = render(a_), render(b_)
+            corr.count("cross-context")
+            if out[0] == "val":
+                corr.nontriv(("cross", upto, y, sa, sb))
+            bad = judge(si[y], a_, b_, out)
+            if not bad:
+                continue
+            case = {"year": y, "a": sa, "b": sb, "ea": a_, "eb": b_, "cross": {"ops": [list(o) for o in cross_ops[:upto]]}}
+            if first:
+                first = False
+                other = [o for o in order if o != y][0]
+                for short in ([["new", y], ["call", 0, sa, sb]],
+                              [["new", other], ["new", y], ["call", 0, sa, sb], ["call", 1, sa, sb]],
+                              [["new", y], ["new", other], ["call", 1, sa, sb], ["call", 0, sa, sb]]):
+                    cshort = dict(case, cross={"ops": short, "ops_before_minimisation": case["cross"]["ops"]})
+                    if probe_replay(ctx, "oracle:cross-context", cshort):
+                        case = cshort
+                        break
+            # reported FIRST: these histories ran in a process of their own, so their replays are self-contained, whereas a single-call
+            # case recorded by another stream does not reproduce in a fresh process when the cause is state shared between contexts
+            n_cross = sum(1 for f_ in corr.failures if f_["stream"] == "oracle:cross-context")
+            corr.failures.insert(n_cross, {"stream": "oracle:cross-context", "case": case,
+                                           "what": "with contexts of both years alive in one process: " + bad[0], "observed": out, "details": bad[1]})
+    except Exception as e:
+        corr.errors.append(f"cross-context stream failed: {e!r}")
+    corr.hit(f"cross-context: {len(sens)} year-sensitive requests")
     # published-exact stream: conversions between the two units of a published '<a>-<b> relationship' whose target is the unit the bridge
     # converts to (hartree for sources Hz, 1/m, kg, K, u; Hz, 1/m, kg, K for sources hartree, J, eV) must reproduce NIST's number itself
     # (raw text of the same set) to binary64 precision, not merely to CODATA precision
@@ -1318,6 +1437,15 @@ def _rejudge(ctx, case):
         a, b = tup0(case["ea"]), tup0(case["eb"])
         both = contexts()[year]
         return out, judge(si, a, b, out, rerun=lambda x, y_: impl_call(both, render(x), render(y_)))
+    if case.get("cross"):
+        def tupc(e):
+            if isinstance(e, (list, tuple)):
+                if e and e[0] == "num":
+                    return ("num", Fraction(e[1]))
+                return tuple(tupc(x) for x in e)
+            return e
+        out = run_cross_ops(case["cross"]["ops"])
+        return out, judge(si, tupc(case["ea"]), tupc(case["eb"]), out)
     cobj = contexts()[year]
     if case.get("prelude") is not None:
         cobj = fresh_context(year)               # history case: replay the earlier calls on a fresh context first
@@ -1445,7 +1573,13 @@ LEVEL_TEXT = (
     "(Model/UnitsGlue.v: str / Quantity / Unit arguments, functools.lru_cache with LRU eviction): C03_str_entry_point_is_text_model, "
     "C03_quantity_argument_is_prefactor, C03_cache_transparent (any history of calls with stable keys is answered as without a cache), "
     "C03_cache_transparent_str_history (EVERY history of str calls), C03_cache_stable_same_dimension, and C03_cache_poisoned_refuted (Quantity(1 MHz) "
-    "then Quantity(1e6 Hz) -> hartree: the unprefixed request gets the double-scaled cached answer; same root cause as the known finding).")
+    "then Quantity(1e6 Hz) -> hartree: the unprefixed request gets the double-scaled cached answer; same root cause as the known finding). "
+    "Wave 4: C03_energy_to_per_mole / C03_per_mole_to_energy (energy <-> energy/mol for ALL source and target expressions, prefixed or not: "
+    "times resp. divided by the Avogadro constant of the same set), C03_per_mole_roundtrip (exactly 1); C03_text_roundtrip (for ALL expressions "
+    "with canonical atoms and non-negative integer numerals, Model/UnitsText.v reads the fully parenthesised text written by render() back to "
+    "exactly that expression: tokenizer and parser are left inverses of rendering), C03_text_roundtrip_conv (so conv_text on rendered texts is "
+    "conv_ctx on the expressions), C03_text_canonical_atoms (every prefix or none x the 68 self-spelled unit names is canonical); correspondence stream cross-context "
+    "(contexts of both sets alive in one process, year-sensitive requests put to the other set's object first, run in a process of its own).")
 LEVEL_NOTE = (
     "Clause map (full version at the top of coq/Props/C03.v): same dimension = SI ratio -> C03_same_dimension_is_SI_ratio, C03_parse_is_algebraic, "
     "C03_anchored*, C03_au_units_consistent; diagonal/reciprocal/chain -> C03_diagonal, C03_reciprocal, C03_chain; linear in a prefactor -> "
@@ -1454,9 +1588,12 @@ LEVEL_NOTE = (
     "C03_relationships_consistent_with_physics (false for SI-prefixed NIST sources: C03_prefixed_bridge_refuted / _characterised); a->b->a = 1 -> "
     "C03_reciprocal, C03_published_roundtrip, C03_default_route_roundtrip; unrelated dimensions raise -> C03_unrelated_dims_error, "
     "C03_number_only_if_dimension_reached; entry point glue (str/Quantity/Unit, lru_cache) -> C03_cache_* and C03_str_entry_point_is_text_model, with "
-    "conversion_factor / ureg / Quantity / Datum.to_units pinned verbatim by the translator; energy<->energy/mol, Datum.to_units, the singleton, "
-    "the lazily built registry: correspondence only. MISSING: a render/parse round trip of the text reader for all expressions (only pinned examples "
-    "+ ~7k texts per run). Unit arguments are identified by ordered container in the cache model (pint: unordered). "
+    "conversion_factor / ureg / Quantity / Datum.to_units pinned verbatim by the translator; energy<->energy/mol -> C03_energy_to_per_mole, "
+    "C03_per_mole_to_energy, C03_per_mole_roundtrip (wave 4); the text reader on rendered expressions -> C03_text_roundtrip, C03_text_roundtrip_conv, "
+    "C03_text_canonical_atoms (wave 4); Datum.to_units, the singleton, the lazily built registry, independence of the two "
+    "sets' contexts living in one process (stream cross-context, wave 4): correspondence only. The render/parse round trip (wave 4) covers the fully parenthesised spelling with canonical long names and non-negative integer "
+    "numerals; symbols, aliases, juxtaposition, unparenthesised precedence and decimal fractions remain pinned examples + ~7k texts per run read "
+    "by the model. Unit arguments are identified by ordered container in the cache model (pint: unordered). "
     "The proof content is algebra over the model plus table consistency; the tie carries the weight: pint (parser, alias and prefix resolution, "
     "UnitsContainer, Context graph search, conversion) is external code, modelled by hand in Model/Units.v on expressions that are already "
     "resolved to canonical (prefix, unit) atoms, and tied only by correspondence (about 15k conversions per quick run, 0 tolerance beyond 1e-12 "
